@@ -134,6 +134,12 @@ def watermark_rules(chk, repo, rule):
            "size, watermark restored after the with block")
 
 
+# number of argument registers (r1..rn) of the helpers the package calls
+HELPER_ARGS = {"map_lookup_elem": 2, "map_update_elem": 4,
+               "map_delete_elem": 2, "tail_call": 3, "ktime_get_ns": 0,
+               "get_prandom_u32": 0, "trace_printk": 5}
+
+
 def slot_escape_rule(chk, repo, rule):
     """a register that is given the address of a get_stack slot is only
     handed out (yielded) while the slot is reserved"""
@@ -183,6 +189,45 @@ def slot_escape_rule(chk, repo, rule):
                                "(the 4-byte key of a map update lands in "
                                "the value)")
     chk.floor(rule, "get_stack users", n, 3)
+    # consumers: `with v.get_address(N, ...)` leaves the address of a
+    # temporary in rN; a helper that reads rN must be called inside
+    k = 0
+    for m in repo.production_modules():
+        for f in ast.walk(m.tree):
+            if not isinstance(f, FUNC):
+                continue
+            for w in walk_no_nested(f):
+                if not isinstance(w, ast.With):
+                    continue
+                for it in w.items:
+                    b = match("$v.get_address($n, $*rest)", it.context_expr)
+                    if b is None or not (isinstance(b["n"], ast.Constant)
+                                         and isinstance(b["n"].value, int)):
+                        continue
+                    k += 1
+                    reg = b["n"].value
+                    inside = {id(x) for s_ in w.body for x in ast.walk(s_)}
+                    users = []
+                    for c in walk_no_nested(f):
+                        if isinstance(c, ast.Call) and isinstance(
+                                c.func, ast.Attribute) and c.func.attr \
+                                == "call" and len(c.args) == 1 and (
+                                    dotted(c.args[0]) or "").startswith(
+                                        "FuncId.") and c.lineno > w.lineno:
+                            nargs = HELPER_ARGS.get(c.args[0].attr)
+                            if nargs is not None and 1 <= reg <= nargs:
+                                users.append(c)
+                    for c in users:
+                        chk.ob(rule, repo.qualname_of(f),
+                               f"`{unparse(c)}` reads r{reg} while the "
+                               f"temporary it points to is reserved",
+                               id(c) in inside, c,
+                               f"r{reg} holds the address `{unparse(it.context_expr)[:40]}` "
+                               f"produced; after that block the slot is "
+                               f"free again and the next get_stack (the "
+                               f"helper's key) is carved from the same "
+                               f"bytes")
+    chk.floor(rule, "get_address(N) consumers", k, 1)
 
 
 # --------------------------------------------------------- packet guards
